@@ -274,6 +274,16 @@ def program_check(pairs, checker, col=None):
         lines.append("async " + c05.header(gp, f"ag{i}"))
         lines.append("async " + c05.header(gp, f"agr{i}").replace("): pass", ") -> int: return 0"))
         lines.append(f"def use_r{i}(cb: Callable[[{', '.join(['int'] * n_req)}], int]) -> None: ...")
+        # protocol method, callback protocol and Literal-function routes (no positional-only headers: `self` comes first)
+        if not any(k == "po" for k, _, _ in list(fp) + list(gp)):
+            lines.append(f"class P{i}(Protocol):")
+            lines.append("    " + c05.header([("pk", "self", False)] + list(fp), "m").replace(": pass", ": ..."))
+            lines.append(f"class Impl{i}:")
+            lines.append("    " + c05.header([("pk", "self", False)] + list(gp), "m"))
+            lines.append(f"def want_p{i}(x: P{i}) -> None: ...")
+            lines.append(f"class CB{i}(Protocol):")
+            lines.append("    " + c05.header([("pk", "self", False)] + list(fp), "__call__").replace(": pass", ": ..."))
+            lines.append(f"def want_cb{i}(x: CB{i}) -> None: ...")
     lines.append("def body():")
     for i, (fp, gp) in enumerate(pairs):
         lines.append(f"    use{i}(g{i})")
@@ -282,6 +292,11 @@ def program_check(pairs, checker, col=None):
         lmap[len(lines)] = (i, "async-unannotated")
         lines.append(f"    use_r{i}(agr{i})")
         lmap[len(lines)] = (i, "async-annotated")
+        if not any(k == "po" for k, _, _ in list(fp) + list(gp)):
+            lines.append(f"    want_p{i}(Impl{i}())")
+            lmap[len(lines)] = (i, "protocol-method")
+            lines.append(f"    want_cb{i}(g{i})")
+            lmap[len(lines)] = (i, "callback-protocol")
     from pyanalyze.error_code import ErrorCode
 
     res = sut.check_source("\n".join(lines) + "\n", checker=checker)
@@ -313,6 +328,19 @@ def program_check(pairs, checker, col=None):
         # override: self is bound in both, so compare the remaining parameters
         if any(k == "po" for k, _, _ in fp + gp):
             continue  # `self` before a positional-only marker would change the header's meaning
+        for route in ("protocol-method", "callback-protocol"):
+            acc = (i, route) not in diag
+            if col is not None:
+                col.case(nontrivial_id=(route, c05.header(fp), c05.header(gp)) if acc and fp != gp else None,
+                         label=f"{route}-accepted" if acc else f"{route}-rejected")
+            if acc:
+                f = c05.make_fn(fp)
+                names = [nm for k, nm, _ in list(fp) + list(gp) if k in ("po", "pk", "ko")] + ["zz"]
+                ce = counterexample(f, g, names)
+                if ce is not None:
+                    what = (f"`class Impl: {c05.header(gp, 'm')}` is accepted where a protocol with `{c05.header(fp, 'm')}` is expected" if route == "protocol-method"
+                            else f"`{c05.header(gp, 'g')}` is accepted where a callback protocol with `{c05.header(fp, '__call__')}` is expected")
+                    fails.append((f"prog-{route}|{classify(fp, gp, ce)}", f"{what} but ({ce}) binds for the expected signature and raises TypeError for the actual one", fp, gp))
         acc_o = (i, "override") not in diag
         if col is not None:
             col.case(nontrivial_id=("prog-override", c05.header(fp), c05.header(gp)) if acc_o and fp != gp else None,
